@@ -42,7 +42,7 @@ Digits(n)   == IF n < 10 THEN <<48 + n>> ELSE Digits(n \div 10) \o <<48 + (n % 1
 
 \* policies:  ws   "min" | "one" | "all" | "cmt"
 \*            eol  "lf" | "cr" | "crlf"     (comment terminator)
-\*            str  "lit" | "oct" | "cont" | "hex" | "hexws"
+\*            str  "lit" | "oct" | "octmix" | "octmin" | "cont" | "hex" | "hexws"
 \*            name "plain" | "esc"
 Eol(P) == CASE P.eol = "lf" -> <<10>> [] P.eol = "cr" -> <<13>> [] P.eol = "crlf" -> <<13, 10>>
 
@@ -53,6 +53,9 @@ LitByte(b) == CASE b = 92 -> <<92, 92>> [] b = 40 -> <<92, 40>> [] b = 41 -> <<9
 \* raw parentheses are legal when balanced
 LitByteBal(b) == CASE b = 92 -> <<92, 92>> [] b = 13 -> <<92, 114>> [] OTHER -> <<b>>
 OctByte(b) == <<92, 48 + (b \div 64), 48 + ((b \div 8) % 8), 48 + (b % 8)>>
+\* the shortest octal escape (7.3.4.2: one, two or three digits) - legal only when no digit follows it
+OctMin(b) == IF b < 8 THEN <<92, 48 + b>> ELSE IF b < 64 THEN <<92, 48 + (b \div 8), 48 + (b % 8)>> ELSE OctByte(b)
+Printable(b) == b >= 32 /\ b <= 126 /\ b \notin {40, 41, 92}
 HexByte(b) == <<Hex(b \div 16), Hex(b % 16)>>
 HexByteLo(b) == <<HexLo(b \div 16), HexLo(b % 16)>>
 
@@ -60,6 +63,12 @@ SpellStr(t, P) ==
     LET b == t.b IN
     CASE P.str = "lit"  -> <<40>> \o Flat([i \in 1..Len(b) |-> IF t.bal THEN LitByteBal(b[i]) ELSE LitByte(b[i])]) \o <<41>>
       [] P.str = "oct"  -> <<40>> \o Flat([i \in 1..Len(b) |-> OctByte(b[i])]) \o <<41>>
+      \* what writers do: printable bytes raw, everything else as a three-digit escape - a raw digit may follow it
+      [] P.str = "octmix" -> <<40>> \o Flat([i \in 1..Len(b) |-> IF Printable(b[i]) THEN <<b[i]>> ELSE OctByte(b[i])]) \o <<41>>
+      \* the shortest escape wherever the next character written is not a digit
+      [] P.str = "octmin" -> <<40>> \o Flat([i \in 1..Len(b) |->
+                                  IF Printable(b[i]) THEN <<b[i]>>
+                                  ELSE IF i < Len(b) /\ b[i + 1] >= 48 /\ b[i + 1] <= 57 THEN OctByte(b[i]) ELSE OctMin(b[i])]) \o <<41>>
       \* a backslash followed by an end-of-line marker is a line continuation (ignored)
       \* (LF is written as \n here: a raw LF after a continuation ending in CR would read as CRLF)
       [] P.str = "cont" -> <<40>> \o Flat([i \in 1..Len(b) |-> (IF b[i] = 10 THEN <<92, 110>> ELSE LitByte(b[i])) \o (IF i = 1 THEN <<92>> \o Eol(P) ELSE <<>>)]) \o <<41>>
